@@ -264,6 +264,47 @@ def step_events(prev_files: dict | None, files: dict, edits: list[dict], hist_st
                     hist_state["new_stdlib_imports"].append(m)
 
 
+IMPORT_RE = re.compile(r"^\s*(?:import|from)\s+([\w.]+)(?:\s+import\s+([\w, ]+))?", re.M)
+
+
+def dependents(files: dict, stems: list[str]) -> set[str]:
+    """The files that (transitively) import one of the modules `stems` (path stems like 'd3', 'pkg/s1'), plus
+    those modules' own files."""
+    def mod_of(rel: str) -> str:
+        r = rel[:-4] if rel.endswith(".pyi") else rel[:-3]
+        if r.endswith("/__init__"):
+            r = r[:-9]
+        return r.replace("/", ".")
+    imports: dict[str, set[str]] = {}
+    for rel, text in files.items():
+        deps = set()
+        for m in IMPORT_RE.finditer(text):
+            deps.add(m.group(1))
+            for part in (m.group(2) or "").split(","):
+                if part.strip():
+                    deps.add(m.group(1) + "." + part.strip().split(" ")[0])
+        imports[rel] = deps
+    targets = {s.replace("/", ".") for s in stems}
+    out = {rel for rel in files if mod_of(rel) in targets}
+    changed = True
+    while changed:
+        changed = False
+        reach_mods = {mod_of(r) for r in out} | targets
+        for rel, deps in imports.items():
+            if rel not in out and any(d in reach_mods or any(d.startswith(t + ".") for t in reach_mods) for d in deps):
+                out.add(rel)
+                changed = True
+    return out
+
+
+def lines_within(diff: list[str], files: set[str]) -> bool:
+    for d in diff:
+        if d[0] in "+-":
+            if d[1:].split(":", 1)[0] not in files:
+                return False
+    return True
+
+
 def replay_of(h: dict, k: int, diff) -> dict:
     return {"mode": h["mode"], "step": k, "diff": diff, "kind": h["kind"], "name": h.get("name"),
             "history": [{"edits": s["edits"], "files": s["files"], "touch": s.get("touch", []), "clock": s["clock"],
@@ -328,8 +369,9 @@ def check_outputs(ctx: Ctx, h: dict, count: bool = True) -> tuple[bool, bool]:
         diff = B.diff_outputs(dm, fm)
         if diff:
             any_diff = True
-            # stub removal: the daemon does not notice at all
-            if hist_state["stub_removed"] and prev_daemon is not None and d["out"] == prev_daemon:
+            # stub removal: the daemon does not notice; every differing line is in a file that (transitively)
+            # imports the module whose stub went away
+            if hist_state["stub_removed"] and lines_within(diff, dependents(st["files"], [r[:-4] for r in hist_state["stub_removed"]])):
                 ctx.report({"class": "module-path-change-undetected", "edit": "stub-removed-source-unchanged"},
                            f"a stub was deleted while the source file it shadowed is unchanged since the daemon last saw it: the daemon "
                            f"keeps checking against the deleted stub ({hist_state['stub_removed']}, follow-imports={h['mode']}, step {k}): {diff[:3]}",
@@ -368,11 +410,11 @@ class Intern:
         return self.t[n]
 
 
-def encode_call(call: dict) -> tuple[str, dict] | None:
-    """One observed `propagate_changes_using_dependencies` call → a `P` line for Driver/C03 + what mypy did."""
-    iters = call["iters"]
-    trigs, tgts, mods = set(call["triggered"]), set(call["targets_with_errors"]), set(call["up_to_date"]) | set(call.get("remaining", []))
-    for it in iters:
+def collect_call(call: dict, trigs: set, tgts: set, mods: set) -> None:
+    trigs |= set(call["triggered"])
+    tgts |= set(call["targets_with_errors"])
+    mods |= set(call["up_to_date"]) | set(call.get("remaining", []))
+    for it in call["iters"]:
         trigs |= set(it["triggers"])
         for k, vs in it["deps"].items():
             trigs.add(k)
@@ -390,22 +432,23 @@ def encode_call(call: dict) -> tuple[str, dict] | None:
             trigs |= set(rp["fired"])
             tgts |= set(rp["processed"])
         mods |= set(it.get("unloaded", []))
-    # a non-trigger among the triggers does not occur (make_trigger); keep the model's input well-formed
-    if any(not t.startswith("<") for t in trigs):
-        return None
-    N, T, M = Intern(trigs), Intern(tgts), Intern(mods)
-    ilist = lambda xs: ",".join(str(x) for x in xs) or "-"
-    secs = [f"P k=1000 trig={ilist(sorted(N(t) for t in call['triggered']))} utd={ilist(sorted(M(m) for m in call['up_to_date']))} "
-            f"terr={ilist(sorted(T(t) for t in call['targets_with_errors']))}"]
-    c = 0
-    real_seq, real_protos = [], []
-    for it in iters:
+
+
+def ilist(xs) -> str:
+    return ",".join(str(x) for x in xs) or "-"
+
+
+def call_sections(call: dict, N, T, M, c0: int, prefix: str = "") -> tuple[list[str], list, list, int]:
+    """The `I …` / `R …` sections of one propagate call; reprocess counting starts at c0."""
+    secs, real_seq, real_protos = [], [], []
+    c = c0
+    for it in call["iters"]:
         deps = ";".join(f"{N(k)}:" + (",".join(("T%d" % N(v)) if v.startswith("<") else ("G%d" % T(v)) for v in vs) or "-")
                         for k, vs in sorted(it["deps"].items())) or "-"
         mod = ";".join(f"{T(t)}:{M(m)}:{int(l)}" for t, (m, l) in sorted(it["mod_of"].items()) if m is not None) or "-"
         look = ";".join(f"{T(t)}:{int(e['proto'] is not None)}:" + (",".join(f"{T(n)}@{ln}" for n, ln in e["nodes"]) or "-")
                         for t, e in sorted(it["lookup"].items())) or "-"
-        secs.append(f"I c={c} deps={deps} mod={mod} look={look}")
+        secs.append(f"I {prefix}c={c} deps={deps} mod={mod} look={look}")
         real_protos.append(sorted(T(p) for p in it.get("stale_protos", []) if p in T.t))
         for rp in it["reprocess"]:
             secs.append(f"R m={M(rp['module'])} fired={ilist(sorted(N(t) for t in rp['fired']))}")
@@ -415,10 +458,105 @@ def encode_call(call: dict) -> tuple[str, dict] | None:
             canon_units = sorted(procd, key=lambda n: (lines.get(n, 0), T(n)))
             real_seq.append((M(rp["module"]), [T(n) for n in canon_units], sorted_by_line, rp.get("in_graph", True)))
             c += 1
+    return secs, real_seq, real_protos, c
+
+
+def encode_update(upd: dict):
+    """One observed FineGrainedBuildManager.update call → a `U` line + what mypy did; None if the call used a
+    path the model does not have (blocking error, newly discovered modules, stale list, typeshed module)."""
+    if not upd.get("ok") or upd.get("blocking_before") or upd.get("blocking_after") or upd.get("stale"):
+        return None
+    evs = upd["events"]
+    mods_ev = [e for e in evs if e["type"] == "module"]
+    calls = [e["call"] for e in evs if e["type"] == "propagate"]
+    if not mods_ev or len(calls) != len(mods_ev) + 1:
+        return None
+    order = []
+    for m in upd["changed"] + upd["removed"]:
+        if m not in order:
+            order.append(m)
+    if [e["module"] for e in mods_ev] != order:
+        return None
+    for e in mods_ev:
+        if e["triggered"] is None or e.get("remaining") or e.get("blocked") or e.get("processed_as") != e["module"]:
+            return None
+    # events must alternate: module, propagate, module, propagate, …, propagate
+    kinds = [e["type"] for e in evs]
+    if kinds != ["module", "propagate"] * len(mods_ev) + ["propagate"]:
+        return None
+    if any(c["outcome"] != "done" or c.get("remaining") for c in calls):
+        return None
+    trigs, tgts, mods = set(), set(upd["prev"]) | set(upd["final_prev"]), set(order)
+    for e in mods_ev:
+        trigs |= set(e["triggered"])
+        tgts |= set(e["errs_after"])
+    for c in calls:
+        collect_call(c, trigs, tgts, mods)
+    if any(not t.startswith("<") for t in trigs):
+        return None
+    N, T, M = Intern(trigs), Intern(tgts), Intern(mods)
+    secs = [f"U prev={ilist(sorted(T(t) for t in upd['prev']))} changed={ilist(M(m) for m in order)}"]
+    c, pm = 0, 0
+    real_seq = []
+    ci = 0
+    for e in evs:
+        if e["type"] == "module":
+            secs.append(f"M m={M(e['module'])} trig={ilist(sorted(N(t) for t in e['triggered']))}")
+            pm += 1
+        else:
+            s, rs, _rp, c = call_sections(e["call"], N, T, M, c, prefix=f"pm={pm} ")
+            secs += s
+            real_seq += rs
+            errs = mods_ev[ci]["errs_after"] if ci < len(mods_ev) else upd["final_prev"]
+            secs.append(f"E pm={pm} c={c} targets={ilist(sorted(T(t) for t in errs))}")
+            ci += 1
+    real = {"modules": [M(m) for m in order], "seq": real_seq, "prev": sorted(T(t) for t in set(upd["final_prev"]))}
+    return " | ".join(secs), real
+
+
+def compare_update(model_line: str, real: dict):
+    fields = dict(x.split("=", 1) for x in model_line.split(" ") if "=" in x and not x.startswith(("reprocess#", "update_module#")))
+    err = model_line.split(" err=", 1)[1] if " err=" in model_line else "-"
+    if fields.get("outcome") != "done":
+        return f"outcome: model {fields.get('outcome')}, mypy done"
+    mmods = [int(x) for x in fields.get("modules", "-").split(",")] if fields.get("modules", "-") != "-" else []
+    if mmods != real["modules"]:
+        return f"update_module order: model {mmods}, mypy {real['modules']}"
+    mseq = []
+    if fields.get("seq", "-") != "-":
+        for part in fields["seq"].split(";"):
+            m, us = part.split(":")
+            mseq.append((int(m), [int(x) for x in us.split(",")] if us != "-" else []))
+    if len(mseq) != len(real["seq"]):
+        return f"reprocess calls over the whole update: model {len(mseq)}, mypy {len(real['seq'])} ({err})"
+    for i, ((mm, mu), (rm, ru, sorted_by_line, in_graph)) in enumerate(zip(mseq, real["seq"])):
+        if mm != rm:
+            return f"batch {i}: model reprocesses module #{mm}, mypy module #{rm}"
+        if in_graph and mu != ru:
+            return f"batch {i} (module #{mm}): model targets {mu}, mypy {ru}"
+    mprev = [int(x) for x in fields.get("prev", "-").split(",")] if fields.get("prev", "-") != "-" else []
+    if mprev != real["prev"]:
+        return f"previous_targets_with_errors after the update: model {mprev}, mypy {real['prev']}"
+    if err != "-":
+        return f"replay notes: {err}"
+    return None
+
+
+def encode_call(call: dict) -> tuple[str, dict] | None:
+    """One observed `propagate_changes_using_dependencies` call → a `P` line for Driver/C03 + what mypy did."""
+    trigs, tgts, mods = set(), set(), set()
+    collect_call(call, trigs, tgts, mods)
+    # a non-trigger among the triggers does not occur (make_trigger); keep the model's input well-formed
+    if any(not t.startswith("<") for t in trigs):
+        return None
+    N, T, M = Intern(trigs), Intern(tgts), Intern(mods)
+    secs = [f"P k=1000 trig={ilist(sorted(N(t) for t in call['triggered']))} utd={ilist(sorted(M(m) for m in call['up_to_date']))} "
+            f"terr={ilist(sorted(T(t) for t in call['targets_with_errors']))}"]
+    isecs, real_seq, real_protos, _c = call_sections(call, N, T, M, 0)
     real = {"outcome": "done" if call["outcome"] == "done" else "maxiter",
             "remaining": [M(m) for m in call.get("remaining", [])], "seq": real_seq, "protos": real_protos,
             "names": {"N": N.t, "T": T.t, "M": M.t}}
-    return " | ".join(secs), real
+    return " | ".join(secs + isecs), real
 
 
 def compare_call(model_line: str, real: dict) -> str | None:
@@ -469,6 +607,17 @@ def algorithm_correspondence(ctx: Ctx, hists: list[dict]) -> list[tuple[dict, in
                     continue
                 lines.append(enc[0])
                 meta.append((h, k, ci, enc[1], call))
+    for h in hists:
+        for k, r in enumerate(h["result"]):
+            for upd in r.get("updates") or []:
+                enc = encode_update(upd)
+                if enc is None:
+                    ctx.count("update_calls_not_encodable")
+                    ctx.dist("update_call", "not-encodable (blocker / new modules / crash)")
+                    continue
+                ctx.dist("update_call", f"{min(len(enc[1]['modules']), 3)} changed module(s)")
+                lines.append(enc[0])
+                meta.append((h, k, -1, enc[1], upd))
     if not lines:
         return []
     outs = ctx.lean_driver("Driver/C03.lean", lines)
@@ -477,6 +626,11 @@ def algorithm_correspondence(ctx: Ctx, hists: list[dict]) -> list[tuple[dict, in
     bad = []
     for (h, k, ci, real, call), line, out in zip(meta, lines, outs):
         ctx.count("traces_validated_against_impl")
+        if ci == -1:        # a whole FineGrainedBuildManager.update call
+            why = compare_update(out, real)
+            if why is not None:
+                bad.append((h, k, "update(): " + why, line + "\n→ " + out))
+            continue
         ctx.dist("propagate_call_iterations", str(min(len(call["iters"]), 5)))
         ctx.dist("propagate_call_reprocess_batches", str(min(sum(len(i["reprocess"]) for i in call["iters"]), 6)))
         ctx.dist("propagate_call_deps_entries", "0" if not any(i["deps"] for i in call["iters"]) else
@@ -587,13 +741,13 @@ def make_jobs(ctx: Ctx) -> list[dict]:
             add("witness", w["name"], w["steps"], mode, same_second=w.get("same_second", frozenset()))
             if w.get("same_second"):
                 jobs[-1]["same_second"] = sorted(w["same_second"])
-    pairs = G.pair_histories()
+    # construct × edit-kind sweep: every scenario × every variant of its defining module, several scenarios per world
+    sweeps = G.packed_sweeps(None) + G.packed_sweeps(random.Random(f"c03sweep:{seed}"))
     if ctx.quick():
-        third = [p for i, p in enumerate(pairs) if i % 3 == seed % 3]
-        for i, (name, steps) in enumerate(third):
+        for i, (name, steps) in enumerate(sweeps):
             add("pairs", name, steps, MODES[(i + seed) % 3])
     else:
-        for name, steps in pairs:
+        for name, steps in sweeps + G.packed_sweeps(random.Random(f"c03sweep2:{seed}")) + G.pair_histories():
             for mode in MODES:
                 add("pairs", name, steps, mode)
     scripted = scripted_buildsim()
